@@ -53,7 +53,7 @@ RULE = ('histories of 1-30 packets: sACN from <= 8 CIDs with priorities {0,99,10
         'small}, terminate/preview/rev2 flags, start codes, frame lengths {0,1,2,512,513,small}, malformed DMP '
         'header/vector/increment/short PDUs, plus scripted scenarios (7th/8th source, priority hand-over both '
         'ways, expiry boundary, full sequence sweep); Art-Net from <= 4 addresses (incl. the wildcard address), '
-        'HTP and LTP, gaps around 10 s, length-field/data-length mismatches. Compared after every packet: '
+        'HTP and LTP, gaps around 10 s, length-field/data-length mismatches; plus static-look histories: a sender repeating a byte-identical frame (sACN: with advancing sequence numbers) in short gaps summing past 10 s / 2.5 s next to a concurrently changing sender, then a late third (sACN: further/7th) sender. Compared after every packet: '
         'callback count, priority byte, registered buffer (SPEC) and the tracked-source tables (internal). '
         'non-trivial = at least one callback and at least two distinct output buffers in the trace; '
         'distinct = distinct model output line')
@@ -269,18 +269,85 @@ def gen_art(rng):
     return 'art %d %s' % (1 if rng.random() < 0.4 else 0, ','.join(steps))
 
 
+def gen_art_static(rng):
+    """a sender holding a byte-identical frame (static look) across the 10 s boundary next to a
+    concurrently changing second sender, then a late third sender; HTP and LTP"""
+    n = rng.choice([3, 4, 6])
+    hi = [rng.randrange(128, 256) for _ in range(n)]          # static sender dominates some slots
+    if rng.random() < 0.3:
+        hi = rframe(rng, n)
+    steps = [art_step(rng.choice([0, 1000]), 1, hi)]
+    steps.append(art_step(rng.choice([10, 1000, 500000]), 2, [rng.randrange(0, 128) for _ in range(n)]))
+    t_static = 0          # time since the static sender's first (= last changed) frame
+    gap_choices = [999999, 1000000, 2000000, 2499999, 2500000, 3000000, 3333333, 4999999, 5000000]
+    target = rng.choice([9999999, 10000000, 10000001, 10500000, 12000000, 15000000, 21000000])
+    while t_static <= target and len(steps) < 26:
+        g = rng.choice(gap_choices)
+        half = rng.randrange(1, g)
+        # the static sender repeats its frame, the other one changes
+        steps.append(art_step(half, 1, hi))
+        steps.append(art_step(g - half, 2, [rng.randrange(0, 128) for _ in range(rng.choice([n, n, n + 1, max(2, n - 1)]))]))
+        t_static += g
+    # late third sender, then both regulars again
+    steps.append(art_step(rng.choice([1, 1000, 100000]), 3, [255] * n))
+    steps.append(art_step(rng.choice([1, 1000]), 1, hi if rng.random() < 0.7 else rframe(rng, n)))
+    steps.append(art_step(rng.choice([1, 1000]), 2, [rng.randrange(0, 128) for _ in range(n)]))
+    if rng.random() < 0.5:
+        steps.append(art_step(rng.choice([1, 1000, 10000001]), 3, [254] * n))
+    return 'art %d %s' % (1 if rng.random() < 0.5 else 0, ','.join(steps))
+
+
+def gen_sacn_static(rng):
+    """sACN sources holding a byte-identical frame (sequence numbers advancing) across the 2.5 s
+    boundary next to a changing source, then a late further source (7th when the table is full)"""
+    n = rng.choice([2, 3, 4])
+    nstatic = rng.choice([1, 1, 2, 5])
+    p = rng.choice(PRIOS[:5])
+    frames = {c: [rng.randrange(100, 256) for _ in range(n)] for c in range(1, nstatic + 1)}
+    seqs = {c: rng.choice([0, 100, 250]) for c in range(1, nstatic + 2)}
+    steps = []
+    for c in range(1, nstatic + 1):
+        steps.append(sacn_step(rng.choice([0, 100]), c, p, seqs[c], frames[c]))
+    ch = nstatic + 1
+    steps.append(sacn_step(100, ch, p, seqs[ch], [rng.randrange(0, 100) for _ in range(n)]))
+    t = 0
+    target = rng.choice([2499999, 2500000, 2500001, 2600000, 3000000, 5200000])
+    gaps = [249999, 250000, 500000, 833333, 1000000, 1250000, 2000000, 2400000]
+    while t <= target and len(steps) < 26:
+        g = rng.choice(gaps)
+        left = g
+        for c in range(1, nstatic + 1):
+            d = rng.randrange(0, left // 2 + 1)
+            left -= d
+            seqs[c] += 1
+            steps.append(sacn_step(d, c, p, seqs[c], frames[c]))
+        seqs[ch] += 1
+        steps.append(sacn_step(left, ch, p, seqs[ch], [rng.randrange(0, 100) for _ in range(n)]))
+        t += g
+    late = ch + 1
+    steps.append(sacn_step(rng.choice([1, 1000]), late, rng.choice([p, p, max(p - 1, 0)]), 7, [255] * n))
+    for c in list(range(1, nstatic + 1))[:2] + [ch]:
+        seqs[c] += 1
+        steps.append(sacn_step(rng.choice([1, 1000]), c, p, seqs[c], frames.get(c, [1] * n)))
+    return 'sacn %d 1 %s' % (1 if rng.random() < 0.5 else 0, ','.join(steps))
+
+
 def gen_cases(rng, tier):
     quick = tier == 'quick'
     yield 'consts'
     n = 1500 if quick else 120000
     for i in range(n):
         r = rng.random()
-        if r < 0.45:
+        if r < 0.40:
             yield gen_sacn_random(rng)
-        elif r < 0.75:
+        elif r < 0.66:
             yield gen_sacn_scripted(rng)
-        else:
+        elif r < 0.74:
+            yield gen_sacn_static(rng)
+        elif r < 0.90:
             yield gen_art(rng)
+        else:
+            yield gen_art_static(rng)
 
 
 def nontrivial(payload, md):
@@ -295,16 +362,19 @@ def nontrivial(payload, md):
 LEVEL_TEXT = ('Coq theorems, by induction over every packet history, about an executable model of '
               'DMPE131Inflator::HandlePDUData/TrackSourceIfRequired and ArtNetNodeImpl::HandleDataPacket/'
               'UpdatePortFromSource: tracked sACN sources are distinct, <= 6, each holds its last accepted frame '
-              'at the active priority (<= 200), every merge outputs the slot-wise maximum of exactly the tracked '
-              'sources none of which (other than the sender) is older than 2.5 s, packets with priority > 200 / '
-              'ignored preview / sequence 0-19 behind / from a seventh source change no output, terminate removes '
-              'the sender at once; Art-Net ports keep two slots, merge HTP/LTP over slots heard within 10 s, and a '
-              'third sender changes nothing. PARTIAL: "live source at the highest priority" is formalised as the '
-              'implemented E1.31 active-priority rule (sources below the active priority are not tracked, so after a '
-              'priority hand-down a lower-priority source is merged only from its next packet); completeness of the '
-              'tracked set w.r.t. a text-level reference and Art-Net slot-address distinctness are not proved. '
-              'Model tied to the C++ by a differential correspondence check after every packet (ASan/UBSan build '
-              'of the /repo working tree, virtual clock) and regenerated constants.')
+              'at the active priority (<= 200), stored sequence numbers are bytes, every merge outputs the slot-wise '
+              'maximum of exactly the tracked sources none of which (other than the sender) is older than 2.5 s, '
+              'packets with priority > 200 / ignored preview / sequence 0-19 behind / from a seventh source change '
+              'no output, terminate removes the sender at once; refinement of a text-level specification (per CID '
+              'latest in-sequence frame, priority, time, terminated; live top-priority group, <= 6): at every merge '
+              'the buffer EQUALS the text-level output for all histories satisfying stated guards. Art-Net ports '
+              'keep two slots with distinct addresses, merge HTP/LTP over slots of different senders heard within '
+              '10 s, and a third sender changes nothing. PARTIAL: the refinement guards are sufficient, not '
+              'necessary (G_flat excludes all histories with concurrently live sources at different priorities; '
+              'the hand-down, discard-without-re-merge and returning-sender departures are exhibited as Examples); '
+              'the Art-Net text-level completeness (every sender accepted within 10 s still holds a slot) is not '
+              'proved. Model tied to the C++ by a differential correspondence check after every packet (ASan/UBSan '
+              'build of the /repo working tree, virtual clock) and regenerated constants.')
 LEVEL_NOTE = ('Trusted: Coq kernel, extraction (ExtrOcamlBasic), OCaml/C++ glue incl. the clock_gettime/'
               'gettimeofday interposers and MockUDPSocket, generator coverage of the correspondence; model = code '
               'is validated by differential testing, not proved. DmxBuffer is used through its list semantics '
